@@ -30,6 +30,26 @@ pub fn gen(seed: u64, tier: Tier, k: u64) -> Value {
         v["pkg"] = json!("bare");
         return v;
     }
+    if (tier == Tier::Quick && (k == 7 || k == 8)) || (tier == Tier::Thorough && (k % 300 == 7 || k % 300 == 8)) {
+        // the first content of a raw cluster that is not the first cluster written comes from a file: 4095 tiny contents from
+        // memory fill the first raw cluster (k odd: a small compressed cluster is written before the raw one instead)
+        let mut items: Vec<Item> = vec![];
+        if k % 2 == 1 {
+            for _ in 0..4095 {
+                items.push(Item { len: 2, ent: Ent::High, hint: Hint::No, src: Src::Mem, dup_of: None, cat_of: None });
+            }
+        } else {
+            for _ in 0..4095 {
+                items.push(Item { len: 3, ent: Ent::Low4, hint: Hint::Yes, src: Src::Mem, dup_of: None, cat_of: None });
+            }
+        }
+        items.push(Item { len: 5000, ent: Ent::High, hint: Hint::No, src: if k % 2 == 1 { Src::File } else { Src::Range { before: 11, after: 5 } }, dup_of: None, cat_of: None });
+        items.push(Item { len: 300, ent: Ent::High, hint: Hint::No, src: Src::Mem, dup_of: None, cat_of: None });
+        let case = ContentCase { seed: rng.next(), comp: if k % 2 == 1 { Comp::None } else { Comp::Zstd(1) }, cached: false, items };
+        let mut v = case.to_json();
+        v["pkg"] = json!("bare");
+        return v;
+    }
     let comp = match k % 5 {
         0 => Comp::None,
         1 => Comp::Lz4(*rng.pick(&[0u32, 3, 9, 15])),
